@@ -2422,3 +2422,91 @@ func ruleForInAbrupt(c *Ctx, r *R) {
 		r.undecided("unresolved:callback", c.Pos(fn.Pos()), "UNRESOLVED: no enumeration callback that stops (returns false) found in the for-in evaluator")
 	}
 }
+
+func init() {
+	register(&Rule{ID: "CLOSURE-runtime", Props: []string{"C17", "C20"}, Min: 3,
+		Doc: "O (ownership): objectClone copies a native function payload verbatim - the Go closure of the original is the closure of the copy. A native function literal (signature func(FunctionCall) Value) that captures a *runtime, an *object, an *Otto or a stash therefore keeps the copy tied to the runtime it was created in: the copy's function reads and mutates the original's heap (results no longer identical to a fresh run; with two goroutines a data race on the original's scope). Every such literal uses the runtime of its FunctionCall argument instead; captures are listed and must be reviewed (immutable after construction) or reported",
+		Run: ruleClosureRuntime})
+}
+
+// closureRuntimeReviewed: the capture was read; the key names the literal.
+var closureRuntimeReviewed = map[string]string{
+	"(*runtime).newErrorObject$1":      "the `stack` getter reads only obj.value, the ottoError stored when the error object was built and never reassigned (an immutable Go value; the clone's object holds a copy of it): no state of the original runtime is read or written (checked: the only use of the capture is a load of field value)",
+	"(*runtime).newErrorObjectError$1": "same getter as newErrorObject$1",
+}
+
+func ruleClosureRuntime(c *Ctx, r *R) {
+	isNativeSig := func(sig *types.Signature) bool {
+		if sig.Params().Len() != 1 || sig.Results().Len() != 1 {
+			return false
+		}
+		return typeIs(sig.Params().At(0).Type(), ottoPath, "FunctionCall") && typeIs(sig.Results().At(0).Type(), ottoPath, "Value")
+	}
+	heapType := func(t types.Type) string {
+		for i := 0; i < 3; i++ {
+			if p, ok := t.Underlying().(*types.Pointer); ok {
+				t = p.Elem()
+				continue
+			}
+			break
+		}
+		if n, ok := t.(*types.Named); ok && n.Obj().Pkg() != nil && n.Obj().Pkg().Path() == ottoPath {
+			switch n.Obj().Name() {
+			case "runtime", "object", "Otto", "dclStash", "fnStash", "objectStash", "scope", "Object", "Value":
+				return n.Obj().Name()
+			}
+		}
+		return ""
+	}
+	n := 0
+	for _, fn := range c.AllSrcFuncs("") {
+		if fn.Parent() == nil || !isNativeSig(fn.Signature) {
+			continue
+		}
+		n++
+		var caps []string
+		for _, fv := range fn.FreeVars {
+			if len(*fv.Referrers()) == 0 {
+				continue
+			}
+			if h := heapType(fv.Type()); h != "" {
+				if h == "Value" {
+					continue // a Value may hold an object; examined through its uses below only when it is an object holder
+				}
+				caps = append(caps, fv.Name()+" "+h)
+			}
+		}
+		key := ssaFuncName(fn)
+		site := c.Pos(fn.Pos())
+		if len(caps) == 0 {
+			r.ok(key, site, "captures no runtime, object or stash")
+			continue
+		}
+		if why, ok := closureRuntimeReviewed[key]; ok {
+			onlyValue := true
+			for _, fv := range fn.FreeVars {
+				if heapType(fv.Type()) == "" {
+					continue
+				}
+				for _, ref := range *fv.Referrers() {
+					ld, isLoad := ref.(*ssa.UnOp)
+					if !isLoad {
+						onlyValue = false
+						continue
+					}
+					for _, r2 := range *ld.Referrers() {
+						if fa, ok := r2.(*ssa.FieldAddr); !ok || !isFieldAddr(fa, "object", "value") || writesThrough(fa) {
+							onlyValue = false
+						}
+					}
+				}
+			}
+			if onlyValue {
+				r.ok("reviewed:"+key, site, why)
+				continue
+			}
+		}
+		r.bad(key, site, fmt.Sprintf("the native function literal %s captures %s of the runtime that created it; Otto.Copy() copies native function payloads verbatim (objectClone), so the copy's function keeps operating on the original runtime's heap: results differ from a fresh run and concurrent use of template and copy races on the original's scope", key, strings.Join(caps, ", ")))
+	}
+	r.note("native_closures", n)
+}
